@@ -27,6 +27,26 @@ PROPS = {
     },
 }
 
+def _kv(pid, title, n, text, note, technique="Coq theorems over the executable model + model/implementation correspondence by vm_compute + Go-side oracle"):
+    return {"title": title, "run_modules": ["RunKV"], "n": n, "level": "proof", "technique": technique,
+            "design_ref": "DESIGN.md section 6, " + pid, "assumptions": KV_ASSUME, "level_text": text, "level_note": note}
+
+PROPS["C08"] = _kv("C08", "Key search and sub-key filters are complete, exact and mutually consistent", {"quick": 4000, "thorough": 60000},
+    "Theorems over the model of hasKey/hasKeyPath/hasSubKeys/getSubKeyMap (all Maps, keys and sub-key lists); correspondence of ValuesForKey, PathsForKey, PathForKeyShortest and ValuesForPath-with-sub-keys with the current /repo; Go-side oracle evaluates the statement's clauses on the implementation.",
+    "Trusted: Coq kernel; hand-written model validated by correspondence; ParseFloat oracle; nested-list inconsistency is a recorded finding.")
+PROPS["C09"] = _kv("C09", "LeafNodes lists every terminal value once, with a path that resolves to it", {"quick": 4000, "thorough": 60000},
+    "Theorems over the model of getLeafNodes (all Maps, keys, option combinations); correspondence of LeafNodes/LeafPaths/LeafValues under all option combinations; oracle resolves every leaf path through ValuesForPath on the implementation.",
+    "Trusted: Coq kernel; model validated by correspondence; strconv.Itoa transcribed.")
+PROPS["C10"] = _kv("C10", "UpdateValuesForPath changes only the addressed values and reports how many", {"quick": 4000, "thorough": 60000},
+    "Theorems over the model of updateValuesForKeyPath/updateValue (functional rebuild of the in-place update); correspondence of the resulting Map and count; oracle compares with the addressed-positions specification.",
+    "Trusted: Coq kernel; model validated by correspondence; two recorded findings (create-on-absent, list node before the last key).")
+PROPS["C11"] = _kv("C11", "SetValueForPath, Remove, RenameKey touch exactly one entry or fail cleanly", {"quick": 4000, "thorough": 60000},
+    "Theorems over the models of SetValueForPath (located ValuesForPath + write), Remove and RenameKey (prevValueByPath + write); correspondence of the Map after the call and of the error class; oracle checks post-condition, frame and fail-clean on the implementation.",
+    "Trusted: Coq kernel; model validated by correspondence.")
+PROPS["C12"] = _kv("C12", "NewMap builds exactly the requested projection and leaves the source unchanged", {"quick": 4000, "thorough": 60000},
+    "Theorems over the model of NewMap/addNewVal; correspondence of the built Map, the error class and the receiver after the call; oracle checks receiver deep-equality and the projection content.",
+    "Trusted: Coq kernel; model validated by correspondence; immutability of Gallina values hides aliasing, so non-modification of the receiver is observed by the harness (deep comparison) on every case.")
+
 # properties not (yet) claimed; kept current as checks are added
 _ALL = ["C%02d" % i for i in range(1, 21)]
 NOT_APPLICABLE = [{"property_id": p, "reason": "check not built yet in this round (planned, see DESIGN.md section 6); not a limit of the technique"}
